@@ -66,6 +66,33 @@ def rule_masked(ck):
                 else:
                     o.ok('plain ndarray')
     ck.extra['masked_data_reads'] = n
+    # the mask itself: exactly the bins whose rate is not positive, and a fill that puts exact zeros back
+    for f in P.funcs_in('csep.core.binomial_evaluations') + P.funcs_in('csep.core.brier_evaluations'):
+        ex = Expander(P, f)
+        for c in all_nodes(f):
+            if not isinstance(c, ast.Call):
+                continue
+            nm = callee(P, f, c) or ''
+            if nm.startswith('numpy.ma.masked_') or nm in ('numpy.ma.array', 'numpy.ma.masked_array', 'numpy.ma.MaskedArray'):
+                o = ck.ob('C16-D1.maskexact', f, c, c)
+                good, why = False, 'unrecognised mask constructor'
+                if nm == 'numpy.ma.masked_where' and len(c.args) >= 2:
+                    cond, arr = c.args[0], c.args[1]
+                    good = isinstance(cond, ast.Compare) and len(cond.ops) == 1 and isinstance(cond.ops[0], (ast.LtE, ast.Eq, ast.Lt)) \
+                        and const_value(cond.comparators[0]) == 0 and u(cond.left) == u(arr)
+                    why = 'the mask condition is `%s`, not <array> <= 0' % u(cond)
+                elif nm in ('numpy.ma.masked_equal', 'numpy.ma.masked_less_equal', 'numpy.ma.masked_less') and len(c.args) >= 2:
+                    good = const_value(c.args[1]) == 0
+                    why = 'masked against %s, not 0' % u(c.args[1])
+                elif nm == 'numpy.ma.masked_values':
+                    why = 'masked_values compares approximately (atol 1e-8, rtol 1e-5): positive rates up to 1e-8 are masked as if they were zero'
+                (o.ok('exact comparison with 0') if good else
+                 o.fail('%s: the bins excluded from the logarithm must be exactly those with rate <= 0' % why))
+            if isinstance(c.func, ast.Attribute) and c.func.attr == 'filled' and 'numpy.ma.' in u(ex.expand(c.func.value)):
+                o = ck.ob('C16-D1.filled', f, c, c)
+                v = c.args[0] if c.args else kw(c, 'fill_value')
+                (o.ok('masked (zero-rate) bins filled with 0') if v is not None and const_value(v) == 0 and not isinstance(const_value(v), bool) else
+                 o.fail('masked zero-rate bins are filled with `%s`; only 0 restores the rates' % (u(v) if v is not None else 'the default fill value')))
 
 
 BINARISE_CMP = (ast.Gt, ast.NotEq, ast.GtE, ast.Eq, ast.Lt, ast.LtE)
